@@ -17,7 +17,7 @@ from .common import Ctx, VERIF
 from . import kalman_shared as ks
 
 DRIVERS = ["C03"]
-EXTRA_PROPS = ['KalmanBridge', 'GenTieCore', 'GenTieC03']   # refinement bridge from the executable QMat model to the matrix-level theorems (audited with this check)
+EXTRA_PROPS = ['KalmanBridge', 'GenTieCore', 'GenTieC03', 'KalmanVariants', 'KalmanObject']   # refinement bridge from the executable QMat model to the matrix-level theorems (audited with this check)
 LEVEL = "proof"
 MANIFEST = {
     "category": "proof",
@@ -52,8 +52,8 @@ MANIFEST = {
 }
 ASSUMPTIONS = [
     "class-T comparison: |impl - model| <= 1e-8*(1+scale) on instances with cond(F_t) <= 1e6; oracle 1e-6*(1+scale) with cond(S_Y) <= 1e8",
-    "the QMat model and the abstract Mathlib recursion of Props/C03.lean are two transcriptions of the same formulas (no refinement proof)",
-    "QMat.inverse/det are not proved; every inverse is re-checked exactly (F*Fi = I) inside the model",
+    "the executable QMat model is tied to the abstract Mathlib recursion of Props/C03.lean by Props/KalmanBridge.lean (the exact runtime flags are sound, F*Fi = 1 whenever a period is passed) and, for the predict step, by the translator tie Props/GenTieC03.lean (model = regenerated kalmans.predict); an operation-by-operation refinement of the update and smoother steps is not proved -- they are two transcriptions of the same formulas compared on every case",
+    "QMat.inverse is proved sound and complete (Lemmas/QMatSolve.lean: inverse_isSome_iff, inverse_complete) and is re-checked exactly (F*Fi = I) inside the model anyway; QMat.det is not proved (used only for the log-determinant term, compared with tolerance)",
     "log is taken by the harness on the model's exact det(Fi_t)",
     "unit-root / fixed_unknown initial conditions only through the direct-call stream with the GLS (concentrated) oracle",
 ]
